@@ -372,7 +372,35 @@ func resolvedCond(b *ssa.BasicBlock) (v ssa.Value, neg bool, ok bool) {
 		}
 		v, neg = inner, neg != n2
 	}
+	// a comparison whose operand is a merged value (`err` after an inlined helper): on this path the operand is the
+	// value that flowed in, so the test reads e.g. `ReadPacket(…)#1 != nil`
+	if bo, isBin := v.(*ssa.BinOp); isBin && len(curEnv) > 0 {
+		x, y := resolveOperand(bo.X), resolveOperand(bo.Y)
+		if x != bo.X || y != bo.Y {
+			v = &ssa.BinOp{Op: bo.Op, X: x, Y: y}
+		}
+	}
 	return v, neg, true
+}
+
+// resolveOperand follows a φ (not a materialised short-circuit) through the choices of the current path.
+func resolveOperand(v ssa.Value) ssa.Value {
+	for depth := 0; depth < 4; depth++ {
+		v = loadSource(v)
+		ph, isPhi := v.(*ssa.Phi)
+		if !isPhi || ph.Comment == "&&" || ph.Comment == "||" {
+			return v
+		}
+		p, has := curEnv[ph.Block().Index]
+		if !has || p >= len(ph.Edges) || ph.Edges[p] == ssa.Value(ph) {
+			return v
+		}
+		if _, isC := ph.Edges[p].(*ssa.Const); isC {
+			return v
+		}
+		v = ph.Edges[p]
+	}
+	return v
 }
 
 func normCond(v ssa.Value) (string, bool) {
@@ -415,15 +443,87 @@ func normCond(v ssa.Value) (string, bool) {
 				}
 			}
 		}
-		switch b.Op {
+		// min(a, m) compared with a: `min(a, m) < a`, `min(a, m) != a` say a > m; `min(a, m) == a` says !(a > m)
+		// (max: with <)
+		for _, xy := range [][2]ssa.Value{{b.X, b.Y}, {b.Y, b.X}} {
+			call, isCall := xy[0].(*ssa.Call)
+			if !isCall || len(call.Call.Args) != 2 {
+				continue
+			}
+			bi, isBuiltin := call.Call.Value.(*ssa.Builtin)
+			if !isBuiltin || (bi.Name() != "min" && bi.Name() != "max") {
+				continue
+			}
+			other := describe(xy[1])
+			var a, m ssa.Value
+			switch other {
+			case describe(call.Call.Args[0]):
+				a, m = call.Call.Args[0], call.Call.Args[1]
+			case describe(call.Call.Args[1]):
+				a, m = call.Call.Args[1], call.Call.Args[0]
+			default:
+				continue
+			}
+			rel := " > "
+			if bi.Name() == "max" {
+				rel = " < "
+			}
+			t := describe(a) + rel + describe(m)
+			// orientation: is the call on the left of the operator?
+			op := b.Op
+			if xy[0] != b.X { // call on the right: mirror
+				switch op {
+				case token.LSS:
+					op = token.GTR
+				case token.GTR:
+					op = token.LSS
+				case token.LEQ:
+					op = token.GEQ
+				case token.GEQ:
+					op = token.LEQ
+				}
+			}
+			strict, nonStrictEq := token.LSS, token.GEQ // min(a,m) < a ; min(a,m) >= a
+			if bi.Name() == "max" {
+				strict, nonStrictEq = token.GTR, token.LEQ
+			}
+			switch op {
+			case strict, token.NEQ:
+				return t, neg
+			case nonStrictEq, token.EQL:
+				return t, !neg
+			}
+		}
+		// a constant is written on the right: `0 < x` is `x > 0`
+		x, y, op := b.X, b.Y, b.Op
+		if _, xc := x.(*ssa.Const); xc {
+			if _, yc := y.(*ssa.Const); !yc {
+				x, y = y, x
+				switch op {
+				case token.LSS:
+					op = token.GTR
+				case token.GTR:
+					op = token.LSS
+				case token.LEQ:
+					op = token.GEQ
+				case token.GEQ:
+					op = token.LEQ
+				}
+			}
+		}
+		switch op {
 		case token.NEQ:
-			return describe(b.X) + " == " + describe(b.Y), !neg
+			return describe(x) + " == " + describe(y), !neg
 		case token.EQL:
-			return describe(b.X) + " == " + describe(b.Y), neg
+			return describe(x) + " == " + describe(y), neg
 		case token.GEQ: // a >= b  <=> !(a < b)
-			return describe(b.X) + " < " + describe(b.Y), !neg
+			return describe(x) + " < " + describe(y), !neg
 		case token.LEQ: // a <= b <=> !(a > b)
-			return describe(b.X) + " > " + describe(b.Y), !neg
+			return describe(x) + " > " + describe(y), !neg
+		case token.LSS:
+			return describe(x) + " < " + describe(y), neg
+		case token.GTR:
+			return describe(x) + " > " + describe(y), neg
 		}
 	}
 	return describe(v), neg
@@ -486,6 +586,12 @@ func factSpellings(t string, truth bool) [][2]interface{} {
 		x := strings.TrimSuffix(t, " == 0")
 		out = append(out, [2]interface{}{x + " > 0", !truth}, [2]interface{}{x + " >= 1", !truth}, [2]interface{}{x + " < 1", truth})
 	}
+	// the empty string: `s == ""` and `len(s) == 0`
+	if strings.HasPrefix(t, "builtin.len(") && strings.HasSuffix(t, ") == 0") {
+		out = append(out, [2]interface{}{strings.TrimSuffix(strings.TrimPrefix(t, "builtin.len("), ") == 0") + ` == ""`, truth})
+	} else if strings.HasSuffix(t, ` == ""`) {
+		out = append(out, [2]interface{}{"builtin.len(" + strings.TrimSuffix(t, ` == ""`) + ") == 0", truth})
+	}
 	// a comparison read from the other side: "a < b" is "b > a"
 	if l, op, r, ok := splitCompare(t); ok {
 		m := " > "
@@ -502,8 +608,31 @@ func factSpellings(t string, truth bool) [][2]interface{} {
 			}
 		}
 	}
+	// a reason code compared with a number is also offered under the names of the packets.Code globals that have that
+	// value (`reason.Code > 0x7F` is `!(reason.Code < packets.ErrUnspecifiedError.Code)`)
+	if len(codeNamesByValue) > 0 {
+		for _, sp := range append([][2]interface{}{}, out...) {
+			st := sp[0].(string)
+			for _, op := range []string{" < ", " > ", " == "} {
+				i := strings.LastIndex(st, op)
+				if i < 0 || !strings.HasSuffix(st[:i], "Code") {
+					continue
+				}
+				k, err := strconv.ParseInt(st[i+len(op):], 0, 64)
+				if err != nil {
+					continue
+				}
+				for _, name := range codeNamesByValue[k] {
+					out = append(out, [2]interface{}{st[:i] + op + "packets." + name + ".Code", sp[1]})
+				}
+			}
+		}
+	}
 	return out
 }
+
+// codeNamesByValue: value -> names of the packets.Code globals with that code byte (set once after loading).
+var codeNamesByValue = map[int64][]string{}
 
 // splitCompare splits "L < R" / "L > R" at the only comparison operator outside brackets.
 func splitCompare(t string) (l, op, r string, ok bool) {
@@ -798,10 +927,54 @@ func assumeHas(sub string, truth bool) Assume {
 	return Assume{Match: func(t string) bool { return strings.Contains(t, sub) }, Truth: truth}
 }
 
+// assumedValue: the truth of condition text t under the assumptions, when they decide it.
+func assumedValue(t string, as []Assume) (val, known bool) {
+	for _, sp := range factSpellings(t, true) {
+		st, str := sp[0].(string), sp[1].(bool)
+		for _, a := range as {
+			if a.Eval != nil {
+				if want, applies := a.Eval(st); applies {
+					return want == str, true
+				}
+				continue
+			}
+			if a.Match != nil && a.Match(st) {
+				return a.Truth == str, true
+			}
+		}
+	}
+	return false, false
+}
+
 func edgeAllowed(b *ssa.BasicBlock, i int, as []Assume) bool {
 	t, truth, ok := edgeFact(b, i)
 	if !ok {
 		return true
+	}
+	// a materialised short-circuit condition (a case of a tagless switch, a condition kept in a variable) whose
+	// operands the assumptions decide: all conjuncts assumed true make φ&& true, all disjuncts assumed false make φ||
+	// false, and the other edge is infeasible
+	if len(as) > 0 {
+		if v, neg, isIf := resolvedCond(b); isIf {
+			if ph, isPhi := v.(*ssa.Phi); isPhi && (ph.Comment == "&&" || ph.Comment == "||") {
+				want := ph.Comment == "&&" // the value φ takes when every operand has it
+				facts := phiImplied(v, want, 0)
+				all := len(facts) > 0
+				for _, f := range facts {
+					val, known := assumedValue(f.text, as)
+					if !known && strings.HasPrefix(f.text, "φ") {
+						continue // a nested short-circuit value: its own operands are in the list
+					}
+					if !known || val != f.truth {
+						all = false
+						break
+					}
+				}
+				if all && ((i == 0) != neg) != want {
+					return false
+				}
+			}
+		}
 	}
 	for _, a := range as {
 		for _, sp := range factSpellings(t, truth) {
